@@ -6,7 +6,7 @@ use crate::entropy;
 use crate::framework::{CaseCx, CaseOut, Check, Tier, Violation};
 use crate::mpcrun::{self, AdvMode, MpcRun, MpcSpec};
 use crate::mutate::{self, MutSpec};
-use crate::schema;
+use crate::schema::{self, V};
 use crate::sim::FaultKind;
 use rand::Rng;
 use serde_json::{Value, json};
@@ -47,6 +47,65 @@ pub fn counterfactual_set(run: &MpcRun) -> Vec<bool> {
         }
     }
     tainted
+}
+
+/// The choice bits of the base OTs are the bits of the global key (the OT-extension sender is the
+/// base-OT receiver). Each of its points R_i = c_i*S + x_i*B must be blinded by a fresh x_i: for no
+/// two indices may R_i - R_j be 0, S or -S (that would tell whether c_i = c_j, i.e. the key up to
+/// complement). S is the point the peer sent just before.
+pub fn base_ot_points_unlinkable(spec: &MpcSpec, run: &MpcRun) -> (Vec<Violation>, u64) {
+    use curve25519_dalek::ristretto::CompressedRistretto;
+    let mut v = vec![];
+    let mut tested = 0u64;
+    let honest = honest_parties(spec);
+    let pt = |b: &[u8]| -> Option<curve25519_dalek::ristretto::RistrettoPoint> { CompressedRistretto::from_slice(b).ok()?.decompress() };
+    for (mi, m) in run.res.transcript.iter().enumerate() {
+        if m.phase != "CO_OT_r" || !honest.contains(&m.from) {
+            continue;
+        }
+        let Some(sm) = run.res.transcript[..mi].iter().rev().find(|x| x.phase == "CO_OT_s" && x.from == m.to && x.to == m.from) else { continue };
+        let Ok(V::Vec(sb, _)) = schema::decode_msg("CO_OT_s", &sm.data) else { continue };
+        let sbytes: Vec<u8> = sb.iter().map(|b| if let V::U8(x) = b { *x } else { 0 }).collect();
+        let Some(s) = pt(&sbytes) else { continue };
+        let Ok(V::Vec(rs, _)) = schema::decode_msg("CO_OT_r", &m.data) else { continue };
+        let mut pts = vec![];
+        for r in &rs {
+            if let V::Vec(bs, _) = r {
+                let bytes: Vec<u8> = bs.iter().map(|b| if let V::U8(x) = b { *x } else { 0 }).collect();
+                if let Some(p) = pt(&bytes) {
+                    pts.push(p);
+                }
+            }
+        }
+        if pts.len() < 2 {
+            continue;
+        }
+        tested += 1;
+        let mut seen: std::collections::HashMap<[u8; 32], usize> = std::collections::HashMap::new();
+        for (i, p) in pts.iter().enumerate() {
+            let mut hit = None;
+            for (what, q) in [("equal to", *p), ("S away from", p + s), ("-S away from", p - s)] {
+                if let Some(j) = seen.get(q.compress().as_bytes()) {
+                    hit = Some((what, *j));
+                    break;
+                }
+            }
+            if let Some((what, j)) = hit {
+                v.push(mk_violation(
+                    "base-ot-choice-bits-linkable",
+                    "base-ot-choice-bits-linkable".into(),
+                    format!(
+                        "party {}: in its 'CO_OT_r' message to party {} (message #{} of the link) point #{i} is {what} point #{j}: whether the two choice bits - bits of its global key - are equal can be read off the wire",
+                        m.from, m.to, m.idx
+                    ),
+                    spec,
+                ));
+                break;
+            }
+            seen.insert(*p.compress().as_bytes(), i);
+        }
+    }
+    (v, tested)
 }
 
 /// XOR-set search for the global key of every honest party in everything that was sent.
@@ -182,7 +241,7 @@ impl Check for C07 {
         "fault_enumeration"
     }
     fn rule(&self) -> String {
-        "two kinds of evaluation: (a) honest simulated runs (circuits with NOT gates, all roles, n in 2..4); (b) attacked runs: every must-detect and optional deviation of the C04 catalogue (message deviations with the scripted adversary that never stops, self-consistent lies with the live adversary + taps) the structure-aware mutations of the online-phase messages, one per run, and a seeded swarm of multi-edit runs. Every single-message deviation is run twice: with the scripted adversary (keeps going whatever happens) and with the live adversary (real code on the corrupted side, so everything it transmits is computed from what it holds in this run). After each run everything sent by anyone is pooled, except counterfactual messages: what the scripted adversary replays after the honest parties' answers to it differ from the reference run (computed from another execution with the same secrets - a rewinding adversary, which the statement does not cover) and, causally, whatever honest parties send after consuming such a message; for every honest party h with probed global key D: D appears at no byte offset in either byte order; no two 16-byte windows (all offsets, both orders) XOR to D; no three decoded 128-bit fields XOR to D (pair budget per run: 3e5 in quick, 3e6 in thorough, which is exhaustive for the small configurations). In every run the engine itself reports (probe) whether the labels the evaluator holds for an AND gate open any of the three other rows of that gate; none may. The oracle is applied whatever the outcome of the run (a leak followed by an abort is a leak). distinct = (configuration, deviation) hash".into()
+        "two kinds of evaluation: (a) honest simulated runs (circuits with NOT gates, all roles, n in 2..4); (b) attacked runs: every must-detect and optional deviation of the C04 catalogue (message deviations with the scripted adversary that never stops, self-consistent lies with the live adversary + taps) the structure-aware mutations of the online-phase messages, one per run, and a seeded swarm of multi-edit runs. Every single-message deviation is run twice: with the scripted adversary (keeps going whatever happens) and with the live adversary (real code on the corrupted side, so everything it transmits is computed from what it holds in this run). After each run everything sent by anyone is pooled, except counterfactual messages: what the scripted adversary replays after the honest parties' answers to it differ from the reference run (computed from another execution with the same secrets - a rewinding adversary, which the statement does not cover) and, causally, whatever honest parties send after consuming such a message; for every honest party h with probed global key D: D appears at no byte offset in either byte order; no two 16-byte windows (all offsets, both orders) XOR to D; no three decoded 128-bit fields XOR to D (pair budget per run: 3e5 in quick, 3e6 in thorough, which is exhaustive for the small configurations). In the honest runs the points of every base-OT receiver message (the choice bits are the bits of the global key) are tested for linkability: for no two indices may R_i - R_j be 0, S or -S. In every run the engine itself reports (probe) whether the labels the evaluator holds for an AND gate open any of the three other rows of that gate; none may. The oracle is applied whatever the outcome of the run (a leak followed by an abort is a leak). distinct = (configuration, deviation) hash".into()
     }
     fn assumptions(&self) -> Vec<String> {
         vec![
@@ -221,6 +280,9 @@ impl Check for C07 {
                 out.evals += 1;
                 out.sim_steps += run.res.steps;
                 let (v, bytes, lookups) = c07_oracle(&spec, &run, budget);
+                let (v2, tested) = base_ot_points_unlinkable(&spec, &run);
+                out.violations.extend(v2);
+                out.count("base_ot_receiver_messages_tested_for_linkable_points", tested);
                 out.count("bytes_pooled", bytes);
                 out.count("xor_lookups", lookups);
                 out.count("honest_runs", 1);
@@ -304,6 +366,10 @@ impl Check for C07 {
     fn replay(&self, spec: &Value) -> Vec<Violation> {
         let Some(spec) = parse_spec(spec) else { return vec![] };
         let run = run_attack(&spec, None);
-        c07_oracle(&spec, &run, usize::MAX / 2).0
+        let mut v = c07_oracle(&spec, &run, usize::MAX / 2).0;
+        if spec.adversary.is_none() {
+            v.extend(base_ot_points_unlinkable(&spec, &run).0);
+        }
+        v
     }
 }
